@@ -33,7 +33,7 @@ for k, vs in sorted(groups.items(), key=lambda kv: -len(kv[1])):
     print(len(vs), k)
     v = min(vs, key=lambda v: len(json.dumps(v)))
     print('     ', json.dumps(v['detail'], default=repr)[:int(os.environ.get('W','300'))])
-    c = dict(v['case']); txt = c.pop('text', '')
+    c = dict(v['case']); txt = c.pop('text', '') if not os.environ.get('KEEPTEXT') else ''
     print('     ', json.dumps(c)[:int(os.environ.get('W','300'))])
     if os.environ.get('SHOWTEXT'):
         print(txt)
